@@ -69,6 +69,21 @@ CHECKS = {
   "Three concurrency scenarios (shared parsed config with Get up front / inside goroutines, independent settings with 8/32 goroutines incl. same format) x generated aliasing-rich configs (incl. signed with protected keys) x GOMAXPROCS values are run under the race detector; reports are counted in log_path files (exit codes are not trusted), results compared with sequential builds; a run that observed < 2 distinct overlap sets is inconclusive.",
   "The race detector decides only the executions it saw. Signed outputs are compared for success, not bytes.",
   "4/C12"),
+ "C13": ("exploration",
+  "runtime monitoring: reflective reference-merge oracle over Config.Get for every overridable leaf x format x placement (exhaustive, leaves discovered by reflection), random combinations, every Get order, before/after snapshots of base settings, package-level confirmation",
+  "For every leaf of nfpm.Overridables a configuration is marshalled from nfpm's own types, parsed, and Get(g) for all formats is compared leaf-by-leaf with a reference merge of an untouched parse; base settings and override blocks must stay unchanged; random multi-block combinations are checked under all Get orders and by decoding built packages; Validate must reject override keys without a packager.",
+  "The reference merge encodes: scalars replaced iff non-zero, lists wholesale iff non-empty, nested blocks field by field, maps key by key (non-empty values), pointers by pointee. Empty-valued override map entries and null override blocks are not explored.",
+  "4/C13"),
+ "C14": ("exploration",
+  "runtime monitoring: grammar-generated version strings against a by-construction split oracle on nfpm.WithDefaults; ordering oracles (harness Debian algorithm cross-checked with dpkg --compare-versions, harness port of rpmvercmp + EVR) applied to version strings decoded from built packages",
+  "Strings are assembled from the semver grammar so the expected split is known by construction; near-misses must stay verbatim; prerelease < release, numeric order and epoch order are checked on versions decoded from really built deb, ipk and rpm packages under the package managers' own comparison algorithms.",
+  "Leading-zero shapes are not generated. dpkg is used when installed; the harness implementations always run. Epochs beyond dpkg's C int are only used for rpm.",
+  "4/C14"),
+ "C15": ("exploration",
+  "runtime monitoring: ConventionalFileName vs conventional name composed from metadata decoded out of Package on the same settings object; byte comparison name-then-package vs package; the real nfpm binary with every target spelling",
+  "Generated name/version/arch combinations x 5 formats: the proposed file name must equal the name composed from the decoded metadata, end in the conventional extension and not alter the package; the CLI is run with target = file, directory, symlinked directory, blank, with and without -p, and with .deb/.rpm/.apk/.ipk extensions.",
+  "File names never carry the epoch. Format detection of CLI output uses the harness decoders.",
+  "4/C15"),
 }
 
 NOT_YET = "check not yet registered in this session (under construction)"
